@@ -21,4 +21,17 @@ def int! (s : String) : Int := s.toInt!
 def nat! (s : String) : Nat := s.toNat!
 def joinSp (l : List String) : String := " ".intercalate l
 
+
+partial def loop (h : IO.FS.Stream) (out : IO.FS.Stream) (c : Comp) (s : c.σ) : IO Unit := do
+  let line ← h.getLine
+  if line.isEmpty then return ()
+  let args := (line.trimAscii.toString.splitOn " ").filter (· ≠ "")
+  let (s', r) := c.step s args
+  out.putStrLn r
+  loop h out c s'
+
+/-- run one session of component `c`: every stdin line is a request, one reply line each -/
+def runComp (c : Comp) : IO Unit := do
+  loop (← IO.getStdin) (← IO.getStdout) c c.init
+
 end JF.Driver
